@@ -234,20 +234,39 @@ theorem function_code_starts_with_addFuncScope (t : Nat) (b : List Instr) (gs gs
   subst h
   simp [List.getD_eq_getElem?_getD, ht]
 
-/-- A call compiled as a self tail call ends with `goto 0`, after leaving every scope opened
-since the function was entered, the function scope included: the next iteration runs
-`AddFuncScope` again and gets a fresh scope (fix fc05fc7). -/
+/-- A call in tail position to the function's own name is compiled either as an ordinary
+call (when the number of arguments does not fit the known template: fix of C02-K5) or as a
+self tail call, which ends with `goto 0` after leaving every scope opened since the function
+was entered, the function scope included: the next iteration runs `AddFuncScope` again and
+gets a fresh scope (fix fc05fc7). -/
 theorem self_tail_call_reenters_at_zero (isFn : Nat → Bool) (c : Ctx) (h : String) (args : List Expr)
     (hc : (c.tail && h == c.funcname) = true) (gs gs' : GS) (code : List Instr) (t : Bool)
     (hr : (compile isFn c (.call (.sym h) args)).run gs = .ok ((code, t), gs')) :
+    code = [.callExpr (.sym h) args] ∨
     ∃ argcode, code = argcode ++ [.prepareCall h args.length] ++ List.replicate (c.scopes + 1) .removeScope ++ [.goto 0] := by
+  have key : ∀ (b : Bool) (f : Option FnObj),
+      (if b = true then (do
+          let code ← compileCallArgs isFn { c with tail := false } f 0 args
+          pure (code ++ [.prepareCall h args.length] ++ List.replicate (c.scopes + 1) .removeScope ++ [.goto 0], c.tail)
+          : G (List Instr × Bool))
+        else pure ([.callExpr (.sym h) args], c.tail)).run gs = .ok ((code, t), gs') →
+      code = [.callExpr (.sym h) args] ∨
+      ∃ argcode, code = argcode ++ [.prepareCall h args.length] ++ List.replicate (c.scopes + 1) .removeScope ++ [.goto 0] := by
+    intro b f hb
+    cases b with
+    | false =>
+      simp only [Bool.false_eq_true, if_false, grun_pure, Except.ok.injEq, Prod.mk.injEq] at hb
+      exact Or.inl hb.1.1.symm
+    | true =>
+      simp only [if_true, grun_bind] at hb
+      split at hb
+      · rename_i a gs1 _
+        simp only [grun_pure, Except.ok.injEq, Prod.mk.injEq] at hb
+        exact Or.inr ⟨a, hb.1.1.symm⟩
+      · cases hb
   unfold compile at hr
   simp only [hc, if_true, grun_bind, grun_get] at hr
-  split at hr
-  · rename_i a gs1 _
-    simp only [grun_pure, Except.ok.injEq, Prod.mk.injEq] at hr
-    exact ⟨a, hr.1.1.symm⟩
-  · cases hr
+  exact key _ _ hr
 
 /-! ## 4. Capture by reference -/
 
